@@ -203,6 +203,19 @@ def _types_compare(t_l, t_r):
     return t
 
 
+def _types_loop_changes(env, var, t):
+    """
+    Inside the body of a loop: would binding ``var`` to a value of type ``t``
+    change the type the variable had when the loop was entered?
+    """
+    t_entry = (env.get("for") or {}).get(var)
+    return t_entry is not None and t_entry != t
+
+
+def _types_loop_error():
+    return TypeErrorRoot("assignment changes the type of a variable inside a loop")
+
+
 def types(a, env=None, func=False):
     """
     Infer types of :obj:`ast` where possible, adding the type (or error)
@@ -307,6 +320,12 @@ def types(a, env=None, func=False):
                         + "type requires fully specified type annotation"
                     )
                     audits(a, "types", t)
+                elif (
+                    not isinstance(t, TypeError)
+                    and t is not None
+                    and _types_loop_changes(env, target.id, t)
+                ):
+                    audits(a, "types", _types_loop_error())
                 elif t is not None:
                     audits(a, "types", typeerror_demote(t))
                     audits(target, "types", TypeInParent())
@@ -413,6 +432,10 @@ def types(a, env=None, func=False):
                     )
                     audits(a, "types", t)
                     audits(a.target, "types", t)
+                elif _types_loop_changes(env, a.target.id, t_u):
+                    t = _types_loop_error()
+                    audits(a, "types", t)
+                    audits(a.target, "types", t)
                 else:
                     t = t_u
                     audits(a, "types", t)
@@ -467,8 +490,17 @@ def types(a, env=None, func=False):
                 pass  # Allow the error to pass through.
             elif t_i == range:
                 env[var] = int
+                # The body is typed once, so the types of the variables that exist when
+                # the loop is entered must be the same in every iteration ("for" cannot
+                # be the name of a variable).
+                outer = env.get("for")
+                env["for"] = {k: v for (k, v) in env.items() if k not in ("for", "return")}
                 for a_ in a.body:
                     env = types(a_, env, func)
+                if outer is None:
+                    env.pop("for", None)
+                else:
+                    env["for"] = outer
             else:
                 audits(a.iter, "types", TypeErrorRoot("iterable must be a range"))
         return env
